@@ -729,3 +729,58 @@ def reconstruct(what, runs, domains, known, matches, no_map, more=None):
         for a, b in zip(pts, pts[1:]):
             refine(a, b)
     return {f: canonical_arms(samples[f]) for f in unknown}
+
+
+# ------------------------------------------------------------------------------------------------ self test
+def _selftest():
+    want = [("eq", U32_MAX, "S"), ("ge", 11084, "B"), ("ge", 9277, "A"), ("any", None, None)]
+    consts_src = "const SIM: u32 = u32::MAX; const FIRST_B: u32 = 11084; const FIRST_A: u32 = 9_277;"
+    variants = [
+        "let map = match run_number { u32::MAX => &*S, 11084.. => &*B, 9277.. => &*A, _ => return Err(E::M { run_number }), };",
+        "let map: &HashMap<K, f64> = match run_number { SIM => &S, n if n >= FIRST_B => &B, n if n >= FIRST_A => &A, "
+        "_ => return Err(E::M { run_number }), };",
+        "let map = if run_number == SIM { &S } else if run_number >= FIRST_B { &B } else if run_number >= FIRST_A { &A } "
+        "else { return Err(E::M { run_number }); };",
+        "let map = if run_number == u32::MAX { &*S } else { match run_number { 0..=9276 => return Err(E::M { run_number }), "
+        "9277..=11083 => &*A, 11084..=u32::MAX => &*B, } };",
+        "if run_number < FIRST_A { return Err(E::M { run_number }); } "
+        "let (first, map) = match run_number { SIM => (0, S.deref()), 9277 | 9278..=11083 => (9277, A.deref()), _ => (11084, &B) };",
+        "let map = match run_number { x @ (0..=9276) => return Err(E::M { run_number: x }), u32::MAX => &S, "
+        "n if !(n < FIRST_B) => &B, _ => &A };",
+    ]
+    consts = int_consts(consts_src)
+
+    def resolve(leaf):
+        return None if leaf_is_err(leaf) else leaf_table(leaf)
+    for v in variants:
+        early, lets = dispatch_statements(parse_body(v + " map.get(&k).copied().ok_or(E::N { run_number })"))
+        assert len(lets) == 1, v
+        k, _, node = lets[0]
+        got = canonical_arms(tree_function([e for j, e in early if j < k] + [node], consts, resolve))
+        assert got == want, (v, got)
+    body = ("if run_number == u32::MAX { return Ok(SIM_DELAY); } if run_number < FIRST { return Err(E::M { run_number }); } "
+            "Ok(DATA_DELAY)")
+    c2 = int_consts("const SIM_DELAY: usize = 100; const DATA_DELAY: usize = 129; const FIRST: u32 = 7000;")
+    got = canonical_arms(tree_function(parse_body(body), c2, lambda l: None if leaf_is_err(l) else leaf_ok_int(l, c2)))
+    assert got == [("eq", U32_MAX, 100), ("ge", 7000, 129), ("any", None, None)], got
+    # what the front end must refuse (left to the semantic fallback)
+    for bad in ("let e = if run_number == SIM { 5000 } else { run_number }; let map = if e >= 9277 { &A } else { &B };",
+                "let map = match run_number / 1000 { 9 => &A, _ => &B };",
+                "let map = match run_number { n if lookup(n) => &A, _ => &B };"):
+        try:
+            early, lets = dispatch_statements(parse_body(bad + " map"))
+            for k, _, node in lets:
+                tree_function([node], consts, lambda l: leaf_table(l) or (_ for _ in ()).throw(GenError("leaf")))
+            assert not lets or False, bad
+        except GenError:
+            pass
+    f = lambda r: "S" if r == U32_MAX else (None if r < 7777 else ("A" if r < 12345 else "B"))
+    rec = reconstruct("t", [0, 1, 99, 100, 101, U32_MAX - 1, U32_MAX], {"x": ["A", "B", "S"]}, {},
+                      lambda sel, r: sel["x"] == f(r), lambda r: f(r) is None, more=lambda rs: None)
+    assert rec["x"] == [("eq", U32_MAX, "S"), ("ge", 12345, "B"), ("ge", 7777, "A"), ("any", None, None)], rec
+    assert first_selection_order(["B", "A", "S", "U"], want) == ["S", "A", "B", "U"]
+    print("dispatchx self test ok")
+
+
+if __name__ == "__main__":
+    _selftest()
